@@ -27,14 +27,14 @@ def run(prog, chk):
     ]
     chk.decided += ["components are only resolved into contours by util.decomposeCompositeGlyph; no other decomposing pen / component removal outside reviewed functions (R01.7, shared with C15)"]
     chk.not_decided += ["that drawn coordinates equal the source (fontTools pens)", "composition of nested transforms", "semantics of roundTolerance inside T2CharStringPen"]
-    r011(prog, chk)
-    r012(prog, chk, "R01.2")
-    r013(prog, chk)
-    r014(prog, chk)
-    r015(prog, chk)
-    r016(prog, chk)
+    chk.guard(r011, prog, chk)
+    chk.guard(r012, prog, chk, "R01.2")
+    chk.guard(r013, prog, chk)
+    chk.guard(r014, prog, chk)
+    chk.guard(r015, prog, chk)
+    chk.guard(r016, prog, chk)
     from .c15 import check_single_decomposer
-    check_single_decomposer(prog, chk, "R01.7")
+    chk.guard(check_single_decomposer, prog, chk, "R01.7")
 
 
 # ----------------------------------------------------------------------------- R01.1
